@@ -115,6 +115,9 @@ def global_state(prefix="pycaption"):
                 if vars(val):
                     out[f"{mname}.{gname}:attrs"] = _fast(vars(val))
             else:
+                tm = type(val).__module__ or ""
+                if not (tm == "builtins" or tm.startswith(prefix) or tm in ("collections", "enum", "re")):
+                    continue  # a foreign object imported into the namespace (e.g. a third-party logger)
                 out[f"{mname}.{gname}"] = _fast(val)
     return out
 
@@ -128,7 +131,13 @@ def _cell_ok(c):
 
 
 def _fast(v):
-    # plain containers of primitives are digested through repr (fast path for the big constant tables)
+    # plain containers of primitives: in-process fingerprint through hash() (fast path for the big constant
+    # tables; only ever compared within one process), else through repr
+    try:
+        if isinstance(v, dict) and len(v) > 50:
+            return ("h", len(v), hash(tuple((k, x if isinstance(x, _PRIMS) else (tuple(x.items()) if isinstance(x, dict) else tuple(x))) for k, x in v.items())))
+    except TypeError:
+        pass
     try:
         if isinstance(v, (dict, list, tuple, set, frozenset)) and _flat(v, 0):
             r = repr(sorted(v, key=repr)) if isinstance(v, (set, frozenset)) else repr(v)
